@@ -196,7 +196,7 @@ Qed.
 
 Definition kinds : list string := map fst programs.
 Definition recoverable_kinds : list string :=
-  ["self_update"; "update_group_data"; "create_message"; "replace_group_relays"]%string.
+  ["self_update"; "update_group_data"; "create_message"; "replace_group_relays"; "accept_welcome"]%string.
 
 (* every unit of these kinds is input-determined and none rewrites a guard cell *)
 Lemma recoverable_kinds_determined :
@@ -256,8 +256,10 @@ Proof. repeat split; vm_compute; reflexivity. Qed.
 (* process_welcome: since the fix (welcome stored before the processed-welcome record) a crash at any unit recovers *)
 Lemma crash_recoverable_process_welcome_units : smallest_failing_k "process_welcome" = None /\ forallb (recovers "process_welcome") (seq 0 8) = true.
 Proof. split; vm_compute; reflexivity. Qed.
-Lemma crash_not_recoverable_accept_welcome : refuted_at "accept_welcome" 12.
-Proof. repeat split; vm_compute; reflexivity. Qed.
+(* accept_welcome: every unit is input-determined and the call has no guard of its own (the welcome event is processed
+   again and accepted again): recoverable at every cut, on every store *)
+Lemma crash_recoverable_accept_welcome : forall k s x, recover k (call_of_kind "accept_welcome") s x = run_call (call_of_kind "accept_welcome") s x.
+Proof. apply crash_recoverable_kind. vm_compute. tauto. Qed.
 (* create_group: the retry draws a fresh group id; the group row of the interrupted attempt stays behind *)
 Lemma crash_not_recoverable_create_group :
   create_group_retry_same 27 = false /\ forallb create_group_retry_same (seq 0 27) = true.
